@@ -17,6 +17,13 @@ case = {
                                          to an even offset is written between members only (ar(5): "a newline
                                          is inserted between files if necessary"), not after the last one.
                                          Changes the file only when the last member has an odd size.
+  "before":  [part, ...],                optional, fileobj mode only: what precedes the archive in the file
+                                         object.  The archive's global header stands at offset len(before) of
+                                         the BytesIO, which is positioned there when it is handed to
+                                         ArFile(fileobj=...) (an archive after a preamble / the second of two
+                                         concatenated archives).  part = a piece as in "gen", or
+                                         ["archive", [member, ...]] / ["archive", [member, ...], final_pad]:
+                                         a whole ar archive of these members written by the harness writer
   "ops":     [op, ...]                   the history; member indices are taken modulo the number of
                                          live member objects: len(members) x (1 + reopens so far),
                                          numbered ArFile by ArFile in order of opening
@@ -24,10 +31,14 @@ case = {
 op = ["read", i]            m.read()                 ["read", i, n]      m.read(n), n >= 1
      ["readline", i]        m.readline()             ["readline", i, n]  m.readline(n), n >= 0
      ["readlines", i]       m.readlines()            ["tell", i]         m.tell()
+     ["readlines", i, h]    m.readlines(h), h = None or an integer of either sign (the size hint of
+                            io readlines: h > 0 stops after the line with which the lines read so far
+                            reach h bytes; None, 0 and negative values mean all remaining lines)
      ["close", i]           m.close()
      ["reopen"]             a further ArFile on the same archive while the earlier ones stay alive and
                             in use: ArFile(filename=the same path) / ArFile(fileobj=a new BytesIO over
-                            the same bytes).  Its listing is checked like the first one's, its members
+                            the same bytes, with the same "before" part and positioned on the global
+                            header again).  Its listing is checked like the first one's, its members
                             start at position 0 and join the live member objects, each with a shadow
                             of its own.  At most 3 per history (further ones are skipped).
      ["seek", i, whence, target]   m.seek(target - base, whence) with base = 0 | current position |
@@ -50,9 +61,11 @@ from debian.arfile import ArFile
 ID = "C06"
 LEVEL = "exploration"
 RULE = ("cases are (open mode, 0..5 members with name/style/binary data/metadata, final pad byte after an "
-        "odd-sized last member present or absent, history of 1..25 "
-        "read/read(n)/readline/readline(n)/readlines/seek/tell/close/reopen operations interleaved over all "
-        "members); reopen opens a further ArFile on the same archive (same path / same bytes) while the earlier "
+        "odd-sized last member present or absent, in fileobj mode optionally bytes / whole archives that precede "
+        "the archive in the file object (which is handed over positioned on the archive's global header), "
+        "history of 1..25 "
+        "read/read(n)/readline/readline(n)/readlines/readlines(hint)/seek/tell/close/reopen operations "
+        "interleaved over all members; hint = None, 0, negative or positive); reopen opens a further ArFile on the same archive (same path / same bytes) while the earlier "
         "ones stay in use, and its members join the history; after every step the returned value and the tell() "
         "of *every* member object of *every* ArFile are compared with an io.BytesIO shadow per member object. "
         "Enumerated: every history of <=3 operations (thorough: "
@@ -60,18 +73,27 @@ RULE = ("cases are (open mode, 0..5 members with name/style/binary data/metadata
         "contents, both open modes (filename mode one operation shorter); every history of <=3 steps with "
         "exactly one reopen (quick: 4 contents, filename mode without the shapes Roo/ooR); big members: for "
         "each power of two B from 4 KiB to 1 MiB, 11 first-member contents of 1..3.25 B bytes, written as "
-        "lit/repeat/noise/line pieces and expanded in the check, x 10 fixed histories x both open modes, and, for "
+        "lit/repeat/noise/line pieces and expanded in the check, x 12 fixed histories (2 of them readlines with size hints around B) x both open modes, and, for "
         "the odd-sized ones, the big member as the last of the archive with the file ending at its last byte x 5 "
         "of the histories; no-final-pad: 15 small archives ending in an odd-sized member, written without the "
         "final pad byte, x every history of <=2 operations, with and without a second ArFile (quick, filename mode: "
         "<=1 operation before/after the second ArFile; thorough: <=3); "
+        "readlines-hints: 4 archives (thorough 7) x every history of <=3 operations (quick, filename mode: <=2) "
+        "from readlines(h), h in None/0/-1/1/2/3 (thorough also -2/6/11), readline, read(1) and 3 seeks on 2 "
+        "members; archive-at-offset: 7 small preambles (1 byte, a script, a bare global header, other archives "
+        "with and without pad byte / with the same member names, a mix) and 18 big ones (B, B+1 bytes for each "
+        "power of two B from 4 KiB to 1 MiB) x 4 (big: 2) archives x every history of <=2 operations, with and "
+        "without a second ArFile (thorough: <=3), from the 14-operation alphabet; "
         "header-columns: mtime/uid/gid/mode at every width up to the full column; close-x-siblings: every "
         "history of 4 operations from read(1)/readline()/close() on 2 members (thorough: 4..6, and after a "
         "reopen). "
         "Generated: Hypothesis archives x histories (members <=64 bytes; the final pad byte is left out in half of "
-        "the archives that end in an odd-sized member); Hypothesis big members (1..4 pieces "
+        "the archives that end in an odd-sized member; in half of the fileobj cases the archive is preceded by 1..2 "
+        "parts, each <=64 bytes or an archive of 0..2 members; readlines hints None, 0, -50..-1, 1..45); "
+        "Hypothesis big members (1..4 pieces "
         "with sizes k*2**e+d, e = 12..20, k = 1..3, d = -3..3, <=3.5 MiB) x histories of <=12 operations whose "
-        "read/readline sizes and seek targets are drawn from the same k*2**e+d family; thorough also builds "
+        "read/readline sizes, readlines hints (both signs), seek targets and preamble sizes are drawn from the "
+        "same k*2**e+d family; thorough also builds "
         "the archive with binutils ar. Non-trivial = >=2 members and (a readline/readlines call that "
         "has to return the unterminated last line of its member, or a read-family call that starts "
         "at a position beyond the member's end); distinct = distinct canonical JSON of the case")
@@ -84,8 +106,15 @@ ASSUMPTIONS = [
     "needs aligning; binutils ar t/p and dpkg-deb -c/-I/-x read such files without complaint (checked by hand "
     "with GNU ar 2.40 and dpkg-deb 1.21.22; bsdtar lists every member, then warns). Every pad byte between "
     "members is always written; the binutils-built archives (writer 'ar') always carry the final one",
-    "read(0)/negative sizes, readlines(hint), negative seek targets, next()/iteration are outside "
+    "read(0)/negative sizes, negative seek targets, next()/iteration are outside "
     "the statement and never generated; seek()'s return value is not compared (checked via tell())",
+    "readlines(hint) is readlines with its documented parameter: the reference is io.BytesIO.readlines(hint) "
+    "itself, for hint = None, 0, negative (all remaining lines) and positive (stop after the line with which the "
+    "lines read so far reach hint bytes); |hint| <= 2**31, far inside the C ssize_t io.BytesIO accepts",
+    "an archive that starts at a non-zero offset of the file object given to ArFile(fileobj=...), the object being "
+    "positioned on its global header (archive after a preamble, second of two concatenated archives), is an "
+    "input form of 'sharing one file object': the archive under test runs from that position to the end of the "
+    "file object; nothing ever follows it. The filename form always starts at offset 0",
     "a further ArFile on the same archive, opened while the first is alive, is 're-opening by file name' / "
     "another reader of the same bytes: its members are files of their own, starting at 0 (fileobj mode "
     "gives it a BytesIO of its own over the same bytes - the harness never moves a file object it has "
@@ -112,15 +141,17 @@ EXHAUSTIVE_REOPEN = {
 }
 EXHAUSTIVE_BIG = ("for every block size B = 2**12 .. 2**20: 11 contents of a first member of 1..3.25 B bytes (one "
                   "line without end, a line of 3 B inside short ones, a line of 1.25 B, arbitrary bytes, short "
-                  "lines filling exactly B / 2B or ending 1..3 bytes past / 1 byte before a multiple of B) x 10 "
+                  "lines filling exactly B / 2B or ending 1..3 bytes past / 1 byte before a multiple of B) x 12 "
                   "fixed histories (readlines from the start, after a seek, after read(B+1), after readline(B+5); "
-                  "read()/readline loops; a second ArFile) x both open modes; for the contents of odd size also the "
+                  "read()/readline loops; a second ArFile; readlines with the size hints B, B+1, 2, -1 and 1, 2B-1, "
+                  "None, 0) x both open modes; for the contents of odd size also the "
                   "archive [small member, big member] whose file ends with the big member's last byte (no final "
                   "pad byte) x 5 of these histories x both open modes")
 BUDGET = {"quick": 200, "thorough": 1500}
 
 MAX_MEMBER_SIZE = 8 << 20     # replay files only: generated members stay below 4 MiB
 MAX_REOPENS = 3
+MAX_HINT = 1 << 31            # readlines(h): |h| stays far inside what io.BytesIO accepts (a C ssize_t)
 
 NAME_ALPHABET = "abcdefghijklmnopqrstuvwxyzABCDEFGHIJKLMNOPQRSTUVWXYZ0123456789._+-"
 
@@ -156,8 +187,10 @@ def _valid_op(op):
     if not isinstance(op, list) or len(op) < 2 or not isinstance(op[1], int) or op[1] < 0:
         return False
     k, n = op[0], len(op)
-    if k in ("readlines", "tell", "close"):
+    if k in ("tell", "close"):
         return n == 2
+    if k == "readlines":
+        return n == 2 or (n == 3 and (op[2] is None or (type(op[2]) is int and abs(op[2]) <= MAX_HINT)))
     if k == "read":
         return n == 2 or (n == 3 and isinstance(op[2], int) and op[2] >= 1)
     if k == "readline":
@@ -167,7 +200,30 @@ def _valid_op(op):
     return False
 
 
+def _valid_before(parts):
+    """The optional "before" key: a list of pieces and ["archive", members(, final_pad)] parts."""
+    if not isinstance(parts, list):
+        return False
+    total = 0
+    for p in parts:
+        if isinstance(p, list) and p and p[0] == "archive":
+            if len(p) not in (2, 3) or not isinstance(p[1], list) or (len(p) == 3 and not isinstance(p[2], bool)):
+                return False
+            if not all(isinstance(m, dict) and _valid_member(m) for m in p[1]):
+                return False
+            total += sum(_member_size(m) + 61 for m in p[1])
+        else:
+            n = A.piece_size(p)
+            if n is None:
+                return False
+            total += n
+    return total <= MAX_MEMBER_SIZE
+
+
 def valid_case(case):
+    if isinstance(case, dict) and "before" in case \
+            and not (case.get("open") == "fileobj" and _valid_before(case["before"])):
+        return False
     return (isinstance(case, dict) and case.get("open") in ("fileobj", "filename")
             and case.get("writer", "harness") in ("harness", "ar")
             and isinstance(case.get("final_pad", True), bool)
@@ -191,14 +247,14 @@ def _situation(kind, start, size, exp):
     unterminated-last-line  a line-oriented call has to return the member's last line, which has
                             no newline (the line is ended by the member's end, not by its data)
     at-member-end           any other call whose result reaches the member's end (incl. the
-                            empty result at the end, and readlines(), which always runs to the end)
-    inside-member           the result ends before the member does
+                            empty result at the end; readlines runs to the end unless a positive
+                            size hint stops it earlier)
+    inside-member           the result ends before the member does (for readlines: stopped by its hint)
     """
     if start > size:
         return "start-beyond-end"
     pieces = exp if kind == "readlines" else [exp]
-    reaches_end = kind == "readlines" or start + len(exp) >= size
-    if not reaches_end:
+    if start + sum(map(len, pieces)) < size:
         return "inside-member"
     if kind != "read" and pieces and pieces[-1] and not pieces[-1].endswith(b"\n") \
             and start + sum(map(len, pieces)) == size:
@@ -332,7 +388,20 @@ def _run_history(mem, ms, ops, labels, reopen):
                 got, exp = m.readline(op[2]), s.readline(op[2])
                 labels.add("op:readline(n)")
         elif kind == "readlines":
-            got, exp = m.readlines(), s.readlines()
+            if len(op) == 2:
+                got, exp = m.readlines(), s.readlines()
+            else:
+                hint = op[2]
+                got, exp = m.readlines(hint), s.readlines(hint)
+                labels.add("op:readlines(hint)")
+                labels.add("readlines-hint:" + ("None" if hint is None else "0" if hint == 0 else
+                                                "negative" if hint < 0 else "positive"))
+                if hint is not None and hint > 0 and start < size:
+                    stopped = start + sum(map(len, exp)) < size
+                    labels.add("readlines-positive-hint:" + ("stops-before-member-end" if stopped else
+                                                             "reaches-member-end"))
+                    if stopped and sum(map(len, exp)) == hint:
+                        labels.add("readlines-positive-hint:reached-exactly-at-a-line-end")
         elif kind == "tell":
             got, exp = m.tell(), s.tell()
         elif kind == "seek":
@@ -409,16 +478,38 @@ def _run_history(mem, ms, ops, labels, reopen):
     return interesting
 
 
+def _members(descr):
+    return [dict(name=s2b(m["name"]), style=m.get("style", "gnu"),
+                 data=A.expand_pieces(m["gen"]) if "gen" in m else s2b(m["data"]),
+                 mtime=m.get("mtime", 0), uid=m.get("uid", 0), gid=m.get("gid", 0),
+                 mode=m.get("mode", 0o100644)) for m in descr]
+
+
+def _before_bytes(parts, labels):
+    """The bytes that precede the archive in the file object (case key "before")."""
+    out = []
+    for p in parts:
+        if p[0] == "archive":
+            out.append(A.ar_archive_bytes(_members(p[1]), final_pad=p[2] if len(p) == 3 else True))
+            labels.add("before:another-archive" + ("" if p[1] else "-without-members"))
+        else:
+            out.append(A.expand_pieces([p]))
+            labels.add("before:other-bytes")
+    return b"".join(out)
+
+
 def check(case):
     if not valid_case(case):
         return (False, ("invalid-case-skipped",))
-    ms = [dict(name=s2b(m["name"]), style=m.get("style", "gnu"),
-               data=A.expand_pieces(m["gen"]) if "gen" in m else s2b(m["data"]),
-               mtime=m.get("mtime", 0), uid=m.get("uid", 0), gid=m.get("gid", 0),
-               mode=m.get("mode", 0o100644)) for m in case["members"]]
+    ms = _members(case["members"])
     padded = A.ar_archive_bytes(ms)
     raw = A.ar_archive_bytes(ms, final_pad=case.get("final_pad", True))      # the archive under test
     labels = set(["open:" + case["open"], "members:%s" % (len(ms) if len(ms) < 3 else "3+")])
+    before = _before_bytes(case.get("before", []), labels)
+    if case["open"] == "fileobj":
+        labels.add("archive-at-offset:" + ("0" if not before else
+                                           ("odd" if len(before) % 2 else "even")
+                                           + (",>=4KiB" if len(before) >= 4096 else "")))
     if ms and len(ms[-1]["data"]) % 2:
         labels.add("last-member-odd:final-pad-" + ("present" if raw == padded else "absent"))
         if raw != padded and len(ms[-1]["data"]) >= 4096:
@@ -471,7 +562,9 @@ def check(case):
             if case["open"] == "filename":
                 ar = ArFile(filename=path)
             else:
-                ar = ArFile(fileobj=io.BytesIO(raw))
+                f = io.BytesIO(before + raw)
+                f.seek(len(before))             # on the global header of the archive under test
+                ar = ArFile(fileobj=f)
             ars.append(ar)
             new = _listing(ar, ms, labels)
             mem.extend(new)
@@ -609,6 +702,96 @@ EXHAUSTIVE_FINAL_PAD = {
 
 
 # ------------------------------------------------------------------------------------------
+# readlines with an explicit size hint: None / 0 / negative (no limit) and positive ones that end
+# inside a line, exactly at a line end and beyond the member's end
+
+HINTS_QUICK = [None, 0, -1, 1, 2, 3]
+HINTS_THOROUGH = [None, 0, -1, -2, 1, 2, 3, 6, 11]
+HINT_OTHER_OPS = [["readline"], ["read", 1], ["seek", 0, 0], ["seek", 0, 1], ["seek", 0, 7]]
+# line lengths 2, 3, 4, 1, 1 (cumulative 2, 5, 9, 10, 11); 2 lines without / with final newline;
+# empty lines only; and the second member "x\ny\nz" (cumulative 2, 4, 5)
+HINT_FIRST_QUICK = ["a\nbb\nccc\n\nd", "a\nb", "ab\ncd\n", "\n\n\n"]
+HINT_FIRST_THOROUGH = HINT_FIRST_QUICK + ["", "abc", "\nab"]
+HINT_PLAN_QUICK = [("fileobj", HINT_FIRST_QUICK, HINTS_QUICK, ("o", "oo", "ooo")),
+                   ("filename", HINT_FIRST_QUICK, HINTS_QUICK, ("o", "oo"))]
+HINT_PLAN_THOROUGH = [("fileobj", HINT_FIRST_THOROUGH, HINTS_THOROUGH, ("o", "oo", "ooo", "Roo")),
+                      ("filename", HINT_FIRST_THOROUGH, HINTS_THOROUGH, ("o", "oo", "ooo"))]
+EXHAUSTIVE_HINTS = {
+    "quick": "archives ['a\\nbb\\nccc\\n\\nd' | 'a\\nb' | 'ab\\ncd\\n' | '\\n\\n\\n', 'x\\ny\\nz'] x all histories of "
+             "1..3 operations (filename mode: 1..2) from readlines(h) for h in None, 0, -1, 1, 2, 3 and readline(), "
+             "read(1), seek to 0 / 1 / 7, on each of the 2 members: every hint from every reachable position, "
+             "followed by every other call",
+    "thorough": "the same with 3 more first-member contents ('', 'abc', '\\nab'), h in None, 0, -1, -2, 1, 2, 3, 6, "
+                "11, histories of 1..3 operations in both open modes and, in fileobj mode, 2 operations on the 4 "
+                "live member objects after a second ArFile",
+}
+
+
+def enum_hint_cases(plan):
+    def gen():
+        for mode, firsts, hints, shapes in plan:
+            alphabet = [["readlines", h] for h in hints] + HINT_OTHER_OPS
+            for first in firsts:
+                members = [_enum_member("a", first), _enum_member("b", "x\ny\nz")]
+                for shape in shapes:
+                    for ops in _shape_histories(shape, 2, alphabet):
+                        yield {"open": mode, "members": members, "ops": ops}
+    return gen
+
+
+# ------------------------------------------------------------------------------------------
+# the archive does not start at offset 0 of the file object handed to ArFile(fileobj=...)
+
+def _before_list(blocks):
+    other = [_enum_member("p", "not this one\n")]
+    same = [_enum_member("a", "a\nb"), _enum_member("b", "x\ny")]
+    small = [
+        [["lit", "x"]],                                     # one byte: every offset of the archive is odd
+        [["lit", "#!/bin/sh\nexit 0\n"]],
+        [["archive", []]],                                  # a global header alone
+        [["archive", other]],                               # the second of two concatenated archives
+        [["archive", same]],                                # ... whose first holds members of the same names
+        [["archive", [_enum_member("q", "odd")], False]],   # ... whose first ends without the pad byte
+        [["lit", "junk "], ["archive", other], ["repeat", "\x00", 512]],
+    ]
+    big = [[["noise", 7, B + d]] for B in blocks for d in (0, 1)]
+    return small, big
+
+
+OFFSET_QUICK = (("o", "oo", "R", "Ro", "oR"), ENUM_DEEP, ("o", "R"))
+OFFSET_THOROUGH = (("o", "oo", "ooo", "R", "Ro", "oR", "oRo"), ENUM_DEEP, ("o", "oo", "R", "Ro", "oR"))
+EXHAUSTIVE_OFFSET = {
+    "quick": "fileobj mode, the file object positioned on the global header of an archive ['a' | 'ab' | 'a\\n' | "
+             "'a\\nb', 'x\\ny'] that is preceded by: 1 byte; a shell script; a global header alone; another "
+             "archive (one member; members of the same names; ending without its pad byte); junk + archive + 512 "
+             "NULs - x all histories of the shapes o, oo, R, Ro, oR over the 14-operation alphabet; preceded by B "
+             "and B+1 arbitrary bytes for every B = 2**12..2**20 (first-member contents 'a', 'ab') x the shapes o, "
+             "R; every one of these archives also without its own final pad byte x the shape o",
+    "thorough": "the same preambles and archives x the shapes o, oo, ooo, R, Ro, oR, oRo; the big preambles x the "
+                "shapes o, oo, R, Ro, oR; without the final pad byte x the shape o",
+}
+
+
+def enum_offset_cases(plan):
+    shapes, firsts, big_shapes = plan
+
+    def gen():
+        small, big = _before_list(BIG_BLOCKS)
+        for befores, shp, fst in ((small, shapes, firsts), (big, big_shapes, firsts[:2])):
+            for before in befores:
+                for first in fst:
+                    members = [_enum_member("a", first), _enum_member("b", "x\ny")]
+                    for final_pad in (True, False):
+                        for shape in shp if final_pad else shp[:1]:
+                            for ops in _shape_histories(shape, 2, ENUM_OPS):
+                                case = {"open": "fileobj", "before": before, "members": members, "ops": ops}
+                                if not final_pad:
+                                    case["final_pad"] = False
+                                yield case
+    return gen
+
+
+# ------------------------------------------------------------------------------------------
 # header columns: every numeric field at every width up to its full column
 
 HEADER_FIELDS = [("mtime", 12, 10), ("uid", 6, 10), ("gid", 6, 10), ("mode", 8, 8)]   # (key, columns, base)
@@ -722,6 +905,10 @@ def big_histories(B):
         [["seek", 0, 1, B + 1], ["read", 0, 2 * B], ["tell", 0], ["readline", 0], ["readlines", 0]],
         [["seek", 0, 0, B // 2], ["readlines", 0], ["seek", 0, 2, B], ["readlines", 0]],
         [["reopen"], ["read", 0, B], ["readlines", 2], ["readlines", 0], ["read", 3]],
+        # size hints: a block, one byte more, one byte less than the rest, then "no limit" three ways
+        [["readlines", 0, B], ["tell", 0], ["readlines", 0, B + 1], ["readlines", 1, 2], ["readlines", 0, -1]],
+        [["seek", 0, 0, 3], ["readlines", 0, 1], ["readlines", 0, 2 * B - 1], ["readlines", 0, None],
+         ["seek", 0, 0, B], ["readlines", 0, 0]],
     ]
 
 
@@ -779,6 +966,7 @@ plain_member_st = st.builds(
 # 0..5 reaches every member of the first ArFile (indices are taken modulo the number of live member
 # objects), 0..19 those of the re-opened ones as well
 idx_st = st.one_of(st.integers(0, 5), st.integers(0, 19))
+hint_st = st.one_of(st.none(), st.sampled_from([0, -1]), st.integers(1, 6), st.integers(1, 45), st.integers(-50, -1))
 op_st = st.one_of(
     st.tuples(st.just("read"), idx_st),
     st.tuples(st.just("read"), idx_st, st.integers(1, 45)),
@@ -786,6 +974,7 @@ op_st = st.one_of(
     st.tuples(st.just("readline"), idx_st),
     st.tuples(st.just("readline"), idx_st, st.integers(0, 45)),
     st.tuples(st.just("readlines"), idx_st),
+    st.tuples(st.just("readlines"), idx_st, hint_st),
     st.tuples(st.just("seek"), idx_st, st.sampled_from([0, 1, 2]), st.integers(0, 50)),
     st.tuples(st.just("seek"), idx_st, st.sampled_from([0, 1, 2]), st.integers(0, 12)),
     st.tuples(st.just("tell"), idx_st),
@@ -802,10 +991,22 @@ def _member_size(m):
 def _settle_final_pad(case):
     """"final_pad": false only where it changes the archive (a last member of odd size).
 
-    The drawn flag is "omit_final_pad" so that Hypothesis shrinks towards the usual, padded file."""
+    The drawn flag is "omit_final_pad" so that Hypothesis shrinks towards the usual, padded file.
+    Likewise "before": kept only where it exists (fileobj mode) and is not empty."""
     if case.pop("omit_final_pad", False) and case["members"] and _member_size(case["members"][-1]) % 2:
         case["final_pad"] = False
+    if "before" in case and (not case["before"] or case["open"] != "fileobj"):
+        del case["before"]
     return case
+
+
+# what may precede the archive in the file object: nothing (half of the draws), bytes, whole archives
+before_part_st = st.one_of(
+    st.tuples(st.just("lit"), data_st),
+    st.tuples(st.just("archive"), st.lists(member_st, max_size=2)),
+    st.tuples(st.just("archive"), st.lists(member_st, max_size=2), st.booleans()),
+)
+before_st = st.one_of(st.just([]), st.lists(before_part_st, min_size=1, max_size=2))
 
 
 def case_st(writer="harness"):
@@ -816,6 +1017,7 @@ def case_st(writer="harness"):
         fixed["writer"] = st.just(writer)       # binutils ar always writes the final pad byte
         return st.fixed_dictionaries(fixed)
     fixed["omit_final_pad"] = st.booleans()
+    fixed["before"] = before_st
     return st.fixed_dictionaries(fixed).map(_settle_final_pad)
 
 
@@ -859,7 +1061,10 @@ big_op_st = st.one_of(
     st.tuples(st.just("readline"), idx_st, big_int_st),
     st.tuples(st.just("seek"), idx_st, st.sampled_from([0, 1, 2]), big_int_st),
     st.tuples(st.just("seek"), idx_st, st.just(0), st.integers(0, 12)),
+    st.tuples(st.just("readlines"), idx_st, st.one_of(big_int_st, big_int_st, big_int_st.map(lambda n: -n))),
 )
+big_before_st = st.one_of(st.just([]), st.lists(
+    st.one_of(before_part_st, st.tuples(st.just("noise"), st.integers(0, 9), big_int_st)), min_size=1, max_size=2))
 big_case_st = st.fixed_dictionaries({
     "open": st.sampled_from(["fileobj", "filename"]),
     "members": st.builds(lambda before, big, after: before + [big] + after,
@@ -867,6 +1072,7 @@ big_case_st = st.fixed_dictionaries({
                          st.lists(st.one_of(member_st, big_member_st), max_size=1)),
     "ops": st.lists(big_op_st, min_size=1, max_size=12),
     "omit_final_pad": st.booleans(),
+    "before": big_before_st,
 }).map(_settle_final_pad)
 
 
@@ -883,6 +1089,8 @@ def sources(tier):
                 Enum("big-members", big_cases(BIG_BLOCKS, ["fileobj", "filename"]), EXHAUSTIVE_BIG),
                 Hyp("archives-x-histories", case_st(), 1200, shards=8),
                 Enum("header-columns", enum_header_cases(["fileobj", "filename"]), EXHAUSTIVE_HEADER),
+                Enum("readlines-hints", enum_hint_cases(HINT_PLAN_QUICK), EXHAUSTIVE_HINTS["quick"]),
+                Enum("archive-at-offset", enum_offset_cases(OFFSET_QUICK), EXHAUSTIVE_OFFSET["quick"]),
                 Enum("no-final-pad", enum_final_pad_cases(FINAL_PAD_QUICK), EXHAUSTIVE_FINAL_PAD["quick"]),
                 Enum("close-x-siblings", enum_close_cases(CLOSE_QUICK), EXHAUSTIVE_CLOSE["quick"]),
                 Enum("one-reopen", enum_reopen_cases(REOPEN_QUICK), EXHAUSTIVE_REOPEN["quick"]),
@@ -893,6 +1101,8 @@ def sources(tier):
             Enum("big-members", big_cases(BIG_BLOCKS, ["fileobj", "filename"]), EXHAUSTIVE_BIG),
             Hyp("archives-x-histories", case_st(), 6000, shards=16),
             Enum("header-columns", enum_header_cases(["fileobj", "filename"]), EXHAUSTIVE_HEADER),
+            Enum("readlines-hints", enum_hint_cases(HINT_PLAN_THOROUGH), EXHAUSTIVE_HINTS["thorough"]),
+            Enum("archive-at-offset", enum_offset_cases(OFFSET_THOROUGH), EXHAUSTIVE_OFFSET["thorough"]),
             Enum("no-final-pad", enum_final_pad_cases(FINAL_PAD_THOROUGH), EXHAUSTIVE_FINAL_PAD["thorough"]),
             Enum("close-x-siblings", enum_close_cases(CLOSE_THOROUGH), EXHAUSTIVE_CLOSE["thorough"]),
             Enum("one-reopen", enum_reopen_cases(REOPEN_THOROUGH), EXHAUSTIVE_REOPEN["thorough"]),
